@@ -78,6 +78,7 @@ def model_binary():
     _BIN = exe
     return _BIN
 
+ORDER_TRIES = 30
 EXTRACT_NAMES = 'step_res step accepts init_state run auto_phony plan_fuel want_list use_list wf_graph_b wf_snap_b wf_cfg_b'
 
 # ------------------------------------------------------------------------------ trace parsing
@@ -195,9 +196,18 @@ class BuildCase:
         dl = {s.id[x] for x in T.delayed if x in s.id}
         return ','.join(str(i) for i in [i for i in range(n) if i not in dl] + sorted(dl)) or '-'
 
-    def script(s, extra_prunes=()):
-        """-> (input lines, checks) ; checks[i] = what to compare on the output of input line i"""
+    def script(s, extra_prunes=(), order=None):
+        """-> (input lines, checks) ; checks[i] = what to compare on the output of input line i.
+        order: None = phony starts tried in ascending id order, 'rev' = descending, int = shuffled"""
         o = s.opts
+        rnd = random.Random(order) if isinstance(order, int) else None
+        def perm(S):
+            S = list(S)
+            if order == 'rev': S.reverse()
+            elif rnd: rnd.shuffle(S)
+            if len(S) > 1: s.multi_auto = True
+            return ','.join(map(str, S))
+        s.multi_auto = False
         k = int(o.get('k', 1)); n = len(s.edges)
         L = ['plan %s j=%d k=%d tokens=%d' % (s.label, int(o.get('j', 1)), k if k > 0 else n + 1, int(o.get('tokens', -1)))]
         C = [None]
@@ -225,13 +235,13 @@ class BuildCase:
                 T = it[1]
                 if prev == 'ps' and last is not None:
                     S = s.gone_phony(last, T)
-                    if S: L.append('auto %s %s' % (','.join(map(str, S)), s.hint(T))); C.append(None)
+                    if S: L.append('auto %s %s' % (perm(S), s.hint(T))); C.append(None)
                 L.append('#check'); C.append(('ps', T, dict(st)))
                 last = T
             elif k0 == 'start':
                 T = next_ps(i)
                 S = s.gone_phony(last, T) if (last is not None and T is not None) else []
-                if S: L.append('auto %s %s' % (','.join(map(str, S)), s.hint(T))); C.append(None)
+                if S: L.append('auto %s %s' % (perm(S), s.hint(T))); C.append(None)
                 L.append('start %d %s' % (s.id[it[1]], s.hint(T))); C.append(('ev', 'start ' + it[1]))
             elif k0 == 'wait':
                 L.append('wait'); C.append(('ev', 'wait'))
@@ -258,7 +268,7 @@ class BuildCase:
                 cls = MSG.get(it[2])
                 if cls is None: raise Skip('exit message outside the model: %r' % it[2])
                 if cls != 'interrupted':
-                    L.append('auto %s -' % (','.join(str(i) for i in range(n) if s.phony[i]) or '-')); C.append(None)
+                    L.append('auto %s -' % (perm([i for i in range(n) if s.phony[i]]) or '-')); C.append(None)
                 L.append('exit %d %s' % (it[1], cls)); C.append(('exit', it[1], cls, dict(st)))
             prev = k0
         L.append('end'); C.append(None)
@@ -363,16 +373,29 @@ def check_many(pairs):
         stats['ps-compared'] += sum(1 for x in C if x and x[0] == 'ps')
         if any(l.startswith('auto') for l in L[:-3]): stats['with-phony-starts'] += 1
         if any(l.startswith('prune') for l in L): stats['with-prunes'] += 1
-        if bad and c.ambiguous: retry.append((pi, c, bad))
+        for l in L:
+            if l.startswith('exit '): stats['exit ' + l.split()[2] + (' code!=0' if l.split()[1] != '0' else '')] += 1
+            if l.startswith('finish ') and l.split()[2] != '0': stats['failed-commands'] += 1
+        if int(c.opts.get('tokens', -1)) >= 0: stats['with-jobserver'] += 1
+        if len(c.depths) > 1: stats['with-pools'] += 1
+        if any(x and x[0] == 'ps' and x[1].delayed for x in C): stats['with-delayed-edges'] += 1
+        if bad and (c.ambiguous or c.multi_auto): retry.append((pi, c, bad))
         elif bad: res[pi] += bad
-    # unobservable phony prunes before the last finish: try the candidate subsets
+    # The trace under-determines two things; the tool searches for an accepted completion:
+    #  * unobservable phony prunes before the last finish: the candidate subsets;
+    #  * the order of several invisible phony starts between two `ps` lines (it decides which pool
+    #    edge is delayed): ascending ids first, then descending, then ORDER_TRIES shuffles.
     for pi, c, bad0 in retry:
-        stats['ambiguous-phony-prune'] += 1
+        amb = c.ambiguous or []
+        if amb: stats['ambiguous-phony-prune'] += 1
+        if c.multi_auto: stats['ambiguous-phony-start-order'] += 1
         ok = False
-        amb = c.ambiguous
-        for r in range(1, len(amb) + 1):
-            for sub in itertools.combinations(amb, r):
-                L, C = c.script(extra_prunes=sub)
+        subs = [()] + [sub for r in range(1, len(amb) + 1) for sub in itertools.combinations(amb, r)]
+        orders = [None] + (['rev'] + list(range(ORDER_TRIES)) if c.multi_auto else [])
+        for sub in subs:
+            for order in orders:
+                if sub == () and order is None: continue
+                L, C = c.script(extra_prunes=sub, order=order)
                 o = _split_out(run_model(L))[0]
                 if not c.compare(L, C, o): ok = True; break
             if ok: break
